@@ -131,6 +131,11 @@ func c10Case(c *ctxT, r *gen.R, k fragLayerKind, inner int) {
 			if r.Intn(3) == 0 {
 				size = r.Intn(6*part + 2)
 			}
+			if r.Intn(4) == 0 && part <= 64 {
+				// part counts around the bitmap's byte boundaries
+				np := gen.Pick(r, []int{7, 8, 9, 15, 16, 17, 24, 32, 33, 64})
+				size = np*part - gen.Pick(r, []int{0, 0, 1, part - 1})
+			}
 			if size > 254*part {
 				size = 254 * part
 			}
